@@ -47,28 +47,42 @@ static std::vector<size_t> parse_braced(const std::string& s, size_t from, size_
     return v;
 }
 
+// one specialisation per method: template<> struct ...static_offsets<NAME> { ... slots[] = {..}; [... strides[] = {..};] };
+// (layout tolerant: only the tokens that the consumer - core.hpp - relies on are required)
 static std::vector<OffsetsLine> parse_offsets(const std::string& text) {
     std::vector<OffsetsLine> out;
-    std::istringstream is(text);
-    std::string line;
-    const std::string pre = "template<> struct yorel::yomm2::detail::static_offsets<";
-    while (std::getline(is, line)) {
-        if (line.empty())
-            continue;
+    const std::string key = "static_offsets<";
+    size_t pos = 0;
+    while (true) {
+        size_t k = text.find(key, pos);
+        if (k == std::string::npos)
+            break;
+        size_t nxt = text.find(key, k + key.size());
+        std::string chunk = text.substr(k, (nxt == std::string::npos ? text.size() : nxt) - k);
+        // the specialisation that follows starts with its own 'template<>' prefix: cut it off
+        size_t tcut = chunk.rfind("template");
+        if (nxt != std::string::npos && tcut != std::string::npos && tcut > 0)
+            chunk = chunk.substr(0, tcut);
         OffsetsLine ol;
-        size_t k = line.find("> {static constexpr std::size_t slots[] = ");
-        if (line.compare(0, pre.size(), pre) == 0 && k != std::string::npos) {
-            ol.name = line.substr(pre.size(), k - pre.size());
-            size_t end = 0;
-            bool ok1 = false, ok2 = true;
-            ol.slots = parse_braced(line, k + strlen("> {static constexpr std::size_t slots[] = "), end, ok1);
-            size_t s2 = line.find("static constexpr std::size_t strides[] = ", end);
+        size_t s1 = chunk.find("slots[]");
+        size_t s2 = chunk.find("strides[]");
+        bool ok1 = false, ok2 = true;
+        size_t end = 0;
+        if (s1 != std::string::npos) {
+            // the method name: up to the '>' that precedes the opening brace of the body
+            size_t body = chunk.rfind('{', s1);
+            size_t gt = body == std::string::npos ? body : chunk.rfind('>', body);
+            if (gt != std::string::npos && gt >= key.size())
+                ol.name = chunk.substr(key.size(), gt - key.size());
+            ol.slots = parse_braced(chunk, s1, end, ok1);
             if (s2 != std::string::npos)
-                ol.strides = parse_braced(line, s2 + strlen("static constexpr std::size_t strides[] = "), end, ok2);
-            std::string tail = line.substr(end);
-            ol.ok = ok1 && ok2 && tail == "; };";
+                ol.strides = parse_braced(chunk, s2, end, ok2);
+            // the body must be closed
+            size_t close = chunk.find('}', end);
+            ol.ok = ok1 && ok2 && close != std::string::npos && !ol.name.empty();
         }
         out.push_back(ol);
+        pos = k + key.size();
     }
     return out;
 }
@@ -240,67 +254,131 @@ int prop_offsets(Run& run) {
 // ---------------------------------------------------------------------------
 // C13
 
-static bool parse_uint_list(const std::string& body, std::vector<unsigned long long>& out) {
-    // numbers separated by commas, // comments to end of line
-    size_t i = 0;
-    while (i < body.size()) {
-        if (body[i] == '/' && i + 1 < body.size() && body[i + 1] == '/') {
-            while (i < body.size() && body[i] != '\n')
-                ++i;
-        } else if (isdigit((unsigned char)body[i])) {
-            char* e = nullptr;
-            out.push_back(strtoull(body.c_str() + i, &e, 0));
-            i = e - body.c_str();
-        } else if (body[i] == ',' || isspace((unsigned char)body[i])) {
+// the initialiser as a tree of braces and numbers (comments stripped, layout ignored)
+struct Init {
+    std::vector<Init> kids;
+    std::vector<unsigned long long> nums; // when leaf list
+    bool is_list = false;
+    bool has_num = false;
+    unsigned long long num = 0;
+};
+
+static bool parse_init(const std::string& t, size_t& i, Init& out, int depth) {
+    // t[i] == '{'
+    out.is_list = true;
+    ++i;
+    while (i < t.size()) {
+        unsigned char ch = (unsigned char)t[i];
+        if (isspace(ch) || ch == ',') {
             ++i;
+        } else if (ch == '{') {
+            if (depth > 8)
+                return false;
+            Init k;
+            if (!parse_init(t, i, k, depth + 1))
+                return false;
+            out.kids.push_back(k);
+        } else if (ch == '}') {
+            ++i;
+            return true;
+        } else if (isdigit(ch)) {
+            char* e = nullptr;
+            Init k;
+            k.has_num = true;
+            k.num = strtoull(t.c_str() + i, &e, 0);
+            i = e - t.c_str();
+            out.kids.push_back(k);
         } else {
             return false;
         }
     }
+    return false;
+}
+
+static bool numbers_of(const Init& n, std::vector<unsigned long long>& out) {
+    for (auto& k : n.kids) {
+        if (!k.has_num)
+            return false;
+        out.push_back(k.num);
+    }
     return true;
 }
 
-static bool parse_encoded(const std::string& text, EncodedData& d, std::string& why) {
-    auto num_after = [&](const char* key, size_t& v) {
-        size_t k = text.find(key);
-        if (k == std::string::npos)
-            return false;
-        k += strlen(key);
-        char* e = nullptr;
-        long long x = strtoll(text.c_str() + k, &e, 10);
-        if (e == text.c_str() + k || x < 0 || *e != ']')
-            return false;
-        v = (size_t)x;
-        return true;
+static bool parse_encoded(const std::string& text_in, EncodedData& d, std::string& why) {
+    // strip // comments
+    std::string text;
+    for (size_t i = 0; i < text_in.size(); ++i) {
+        if (text_in[i] == '/' && i + 1 < text_in.size() && text_in[i + 1] == '/') {
+            while (i < text_in.size() && text_in[i] != '\n')
+                ++i;
+            text += '\n';
+        } else {
+            text += text_in[i];
+        }
+    }
+    auto num_after = [&](const char* type, const char* name, size_t& v) {
+        // "<type> <name>[N]" with any spacing
+        size_t k = 0;
+        std::string nm = name;
+        while ((k = text.find(nm, k)) != std::string::npos) {
+            size_t j = k + nm.size();
+            while (j < text.size() && isspace((unsigned char)text[j]))
+                ++j;
+            // the word before must be the element type
+            size_t b = k;
+            while (b > 0 && isspace((unsigned char)text[b - 1]))
+                --b;
+            size_t a = b;
+            while (a > 0 && (isalnum((unsigned char)text[a - 1]) || text[a - 1] == '_' || text[a - 1] == ':'))
+                --a;
+            std::string tword = text.substr(a, b - a);
+            bool boundary = k == 0 || !(isalnum((unsigned char)text[k - 1]) || text[k - 1] == '_');
+            if (boundary && j < text.size() && text[j] == '[' && tword.find(type) != std::string::npos) {
+                char* e = nullptr;
+                long long x = strtoll(text.c_str() + j + 1, &e, 10);
+                if (e != text.c_str() + j + 1 && x >= 0) {
+                    v = (size_t)x;
+                    return true;
+                }
+                return false;
+            }
+            k += nm.size();
+        }
+        return false;
     };
-    if (!num_after("uint16_t headroom[", d.headroom) || !num_after("uint16_t slots[", d.nslots) || !num_after("uint16_t vtbls[", d.nvtbls) ||
-        !num_after("std::uintptr_t vtbls[", d.ndecoded) || !num_after("std::uintptr_t dtbls[", d.ndtbls)) {
+    if (!num_after("uint16_t", "headroom", d.headroom) || !num_after("uint16_t", "slots", d.nslots) || !num_after("uint16_t", "vtbls", d.nvtbls) ||
+        !num_after("uintptr_t", "vtbls", d.ndecoded) || !num_after("uintptr_t", "dtbls", d.ndtbls)) {
         why = "array-declarations";
         return false;
     }
-    size_t a = text.find("// slots and strides");
-    size_t b = text.find("// v-tables");
-    size_t cpos = text.find("// multi-methods dispatch tables");
-    size_t e = text.find("yorel::yomm2::decode_dispatch_data<");
-    if (a == std::string::npos || b == std::string::npos || cpos == std::string::npos || e == std::string::npos || !(a < b && b < cpos && cpos < e)) {
-        why = "sections";
+    size_t eq = text.find("yomm2_dispatch_data");
+    eq = eq == std::string::npos ? eq : text.find('=', eq);
+    size_t ob = eq == std::string::npos ? eq : text.find('{', eq);
+    if (ob == std::string::npos) {
+        why = "initialiser-not-found";
         return false;
     }
-    auto section = [&](size_t from, size_t to, std::vector<unsigned long long>& out) {
-        std::string body = text.substr(from, to - from);
-        // strip the closing braces that end the section
-        size_t cut = body.find("    }, {");
-        if (cut == std::string::npos)
-            cut = body.find("   } } }, {");
-        if (cut == std::string::npos)
-            cut = body.find("    } };");
-        if (cut != std::string::npos)
-            body = body.substr(0, cut);
-        return parse_uint_list(body, out);
-    };
-    std::vector<unsigned long long> s1, s2, s3;
-    if (!section(a, b, s1) || !section(b, cpos, s2) || !section(cpos, e, s3)) {
+    Init root;
+    size_t i = ob;
+    if (!parse_init(text, i, root, 0)) {
         why = "initialiser";
+        return false;
+    }
+    if (text.find("decode_dispatch_data<", i) == std::string::npos) {
+        why = "decode-call-missing";
+        return false;
+    }
+    // { { { {headroom}, {slots}, {vtbls} } }, {dtbls} }
+    const Init* enc = nullptr;
+    if (root.kids.size() == 2 && root.kids[0].is_list && root.kids[0].kids.size() == 1 && root.kids[0].kids[0].is_list && root.kids[0].kids[0].kids.size() == 3)
+        enc = &root.kids[0].kids[0];
+    if (!enc || !root.kids[1].is_list) {
+        why = "initialiser-shape";
+        return false;
+    }
+    std::vector<unsigned long long> h, s1, s2, s3;
+    if (!numbers_of(enc->kids[0], h) || !numbers_of(enc->kids[1], s1) || !numbers_of(enc->kids[2], s2) || !numbers_of(root.kids[1], s3) || !h.empty()) {
+        why = "initialiser-values";
         return false;
     }
     for (auto x : s1) {
